@@ -7,9 +7,16 @@ Open Scope Z_scope.
    4 exit 0 but stdout is not a list in the input's format *)
 Record obs := { o_class : N; o_items : list bytes }.
 
+(* c_kind: which matcher (default / `i`, `n` or `@[`, `s`, `r`); c_flags: `![`, `8`, `b`, `t` *)
 Record case := {
-  c_fmt : rfmt; c_start : bytes; c_end : bytes; c_excl : bool; c_items : list bytes;
+  c_fmt : rfmt; c_kind : mkind; c_flags : rflags;
+  c_start : bytes; c_end : bytes; c_excl : bool; c_items : list bytes;
   c_obs : obs }.
+
+Definition no_flags : rflags := {| f_not := false; f_rmbs := false; f_blank := false; f_trim := false |}.
+Definition plain_case (c : case) : bool :=
+  match c_kind c with KIndex => true | _ => false end &&
+  negb (f_not (c_flags c) || f_rmbs (c_flags c) || f_blank (c_flags c) || f_trim (c_flags c)).
 
 Definition items_eqb := list_eqb bytes_eqb.
 
@@ -27,7 +34,7 @@ Definition obs_matches (m : Outcome (list bytes)) (o : obs) : bool :=
   end.
 
 Definition agree (c : case) : bool :=
-  obs_matches (run_range (c_fmt c) (params_of c) (c_items c)) (c_obs c).
+  obs_matches (run_range2 simple_rx (c_fmt c) (c_kind c) (c_flags c) (params_of c) (c_items c)) (c_obs c).
 
 Definition obs_of (m : Outcome (list bytes)) : obs :=
   match m with
@@ -92,15 +99,24 @@ Definition spec_obs (start end_ : bytes) (excl : bool) (xs : list bytes) (o : ob
   | None => true
   end.
 
+(* The property speaks about the default (index) matcher without `![` and
+   without the 8 / b / t flags: there the full predicate applies. For the other
+   matchers, the inverse form and the flags the property is silent: no panic, no
+   hang, and (unless 8 / t rewrite the items) the output is still a subsequence. *)
 Definition spec_ok (c : case) : bool :=
-  spec_obs (c_start c) (c_end c) (c_excl c) (c_items c) (c_obs c).
+  if plain_case c then spec_obs (c_start c) (c_end c) (c_excl c) (c_items c) (c_obs c)
+  else no_panic (c_obs c) &&
+       (if (o_class (c_obs c) =? 0)%N && negb (f_rmbs (c_flags c) || f_trim (c_flags c))
+        then is_subseq (o_items (c_obs c)) (c_items c) else true).
 
 (* ---------- known finding ---------- *)
 
 (* 1: json input and an empty selection: the json array writer reports
       "no data returned" (exit 1) instead of writing an empty array *)
 Definition classify (c : case) : N :=
-  match c_fmt c, expected (c_start c) (c_end c) (c_excl c) (c_items c) with
-  | RJson, Some [] => if (o_class (c_obs c) =? 1)%N then 1%N else 0%N
-  | _, _ => 0%N
-  end.
+  if plain_case c then
+    match c_fmt c, expected (c_start c) (c_end c) (c_excl c) (c_items c) with
+    | RJson, Some [] => if (o_class (c_obs c) =? 1)%N then 1%N else 0%N
+    | _, _ => 0%N
+    end
+  else 0%N.
